@@ -401,5 +401,11 @@ def run(chk: Check) -> None:
     rule_i2(chk)
     rule_i3(chk)
     rule_i4_i5(chk)
+    # I6: the address the policy judges is the transport's peer address, unaltered (= C04.M3)
+    from ..machine import server_machine
+    from .c04 import rule_m3
+    from .common import reuse
+
+    reuse(chk, rule_m3, "I6", "the chain is consulted with the transport's own peer address (peer_name <- transport.get_extra_info('peername'), passed on unaltered, also through the PyOpenSSL wrapper) (= C04.M3)", ("M3",), server_machine(chk.proj))
     chk.trusted = ["CPython ast parser", "engine CFG / abstract evaluator", "ipaddress: ip_address/ip_network parsing and `in` containment"]
     chk.assumptions = ["an empty list and an absent list both mean 'no entries' (AccessControl treats them alike)"]
